@@ -46,7 +46,8 @@ def observe_api(scope: str) -> dict:
                 T['asex'].append([o, s.id, k, x])
             for k, c in enumerate(s.counts()):
                 T['acount'].append([o, s.id, k, int(c), _meta(c.metadata())])
-            for fr in s.frames():
+            # (the order of the frames of a sense is nowhere specified: sorted)
+            for fr in sorted(s.frames()):
                 T['aframe'].append([o, s.id, fr])
     ycount = {}
     for y in w.synsets():
